@@ -12,11 +12,13 @@ use crate::storage::format::{FormatV1, FormatV2};
 //   mode 0: the crate's own portable kernel `crc32c_sw` (default)
 //   mode 1: recorder – logs exactly which bytes are fed, in which order, and checks the seed chaining
 //   mode 2: havoc – an arbitrary u32 per call (sound over-approximation for panic-freedom checks)
+//   mode 3: constant (for slot-selection logic)
 pub(crate) static mut CRC_MODE: u8 = 0;
 pub(crate) fn crc_override() -> Option<Crc32c> {
     Some(match unsafe { CRC_MODE } {
         1 => rec_crc,
         2 => havoc_crc,
+        3 => const_crc,
         _ => crc32c_sw,
     })
 }
@@ -30,11 +32,22 @@ pub(crate) fn use_havoc() {
         CRC_MODE = 2;
     }
 }
+pub(crate) fn use_const() {
+    unsafe {
+        CRC_MODE = 3;
+    }
+}
+/// mode 3: a constant – deterministic, so "this slot's stored checksum is right" is decided by the
+/// symbolic header alone (used for slot-selection logic, where the CRC value itself is irrelevant)
+pub(crate) const CONST_CRC: u32 = 0x1357_9BDF;
+fn const_crc(_seed: u32, _data: &[u8]) -> u32 {
+    CONST_CRC
+}
 fn havoc_crc(_seed: u32, _data: &[u8]) -> u32 {
     kani::any()
 }
 
-pub(crate) const REC_CAP: usize = 64;
+pub(crate) const REC_CAP: usize = 128;
 pub(crate) const REC_MSGS: usize = 4;
 pub(crate) struct Recorder {
     pub n: usize,
